@@ -13,7 +13,7 @@ func main() {
 	r := vx.Start("C26", "model_checking")
 	clog.SetLogLevel("crit")
 	r.QuietStderr()
-	r.Rule = "every rooted block tree with <= N blocks above a 12-block trunk x every assignment of two difficulty values (tied tips included) x EVERY delivery order (n!) x {plain, one duplicated delivery / sync kind}; after each execution: sequence numbers 0..last all present, none beyond; replaying add/delete records on an empty height->hash map (adds only on a free height with the right parent, deletes only of the current tip) yields exactly the best chain; hash->sequence points at the last add. state = (tree, order, kind). distinct = (tree size, refusals, kind, last sequence) classes"
+	r.Rule = "every rooted block tree with <= N blocks above a 12-block trunk x every assignment of two difficulty values (tied tips included) x EVERY delivery order (n!) x {plain, one duplicated delivery / sync kind}; after each execution: sequence numbers 0..last all present, none beyond; replaying add/delete records on an empty height->hash map (adds only on a free height with the right parent, deletes only of the current tip) yields exactly the best chain; hash->sequence points at the last add; the block loaded by sequence (LoadBlockBySequence) is the block the record names, for every record including those of removed blocks. state = (tree, order, kind). distinct = (tree size, refusals, kind, last sequence) classes"
 	r.Assume = []string{"node modules run free on the real queue; observations are made after every delivery has been answered"}
 	if r.Fork(16) {
 		r.Floors["executions"] = 50
